@@ -289,8 +289,54 @@ def resolve_stream(ctx, n):
                 ctx.disagree({"op": "resolve", "raw": ref, "parent": base}, got, want, {"urllib": ref_py})
 
 
+def parents_in_the_pipeline(ctx, n):
+    """the parent a reference is resolved against is the node's own parent in the seed's tree (the page that referenced it), pass after pass:
+    seeds that redirect to a page in another directory / on another host, pages whose playlists live elsewhere again and name their segments
+    relatively. Requests built by the real preprocess are compared with urljoin(parent's canonical URL, reference)."""
+    from urllib.parse import urljoin
+    from . import stage
+    r = ctx.rng
+    h = core.Interactive("stage")
+    run_ = stage.Run(ctx, h)
+    refs = ["img/a{k}.png", "../up/b{k}.png", "/abs/c{k}.png", "?q={k}", "//cdn.example/d{k}.png", "./e{k}.png", "sub/dir/../f{k}.png", "g{k}.png?x=1&y=2"]
+    try:
+        for k in range(n):
+            page = r.choice(["http://site.example/dir/sub/page%d.html", "https://www.other.example/a/b/p%d", "http://site.example/p%d/"]) % k
+            chain = [x % k for x in r.sample(["http://start.example/s%d", "http://site.example/old/deep/path/s%d", "https://start.example/x/s%d"], r.choice([0, 1, 2]))]
+            seed = chain[0] if chain else page
+            site = stage.Site()
+            for here, there in zip(chain, chain[1:] + [page]):
+                site.add(here, status=r.choice([301, 302]), location=there, body="moved")
+            rel = [x.format(k=k) for x in r.sample(refs, r.randrange(2, 6))]
+            plist = r.choice(["/media/hls/%d/list.m3u8", "http://media.example/v/%d/index.m3u8"]) % k
+            site.add(page, assets=rel + [plist], outlinks=[])
+            segs = ["seg0.ts", "../alt/seg1.ts", "/root/seg2.ts", "chunk/seg3.ts?tok=1"]
+            pabs = urljoin(page, plist)
+            site.add(pabs, ctype="application/vnd.apple.mpegurl", kind="raw",
+                     body="#EXTM3U\n#EXT-X-VERSION:3\n#EXT-X-TARGETDURATION:4\n" + "".join("#EXTINF:4,\n%s\n" % x for x in segs) + "#EXT-X-ENDLIST\n")
+            cfg = {"includeHosts": [], "includeStrings": [], "excludeHosts": list(stage.DEFAULT_EXCLUDED), "excludeStrings": [], "regexes": [], "disableAssets": False,
+                   "maxHops": 0, "maxRedirect": 3, "disableSeencheck": False, "domainsCrawl": [], "disableHTMLTag": [], "captureAlternatePages": False}
+            act, tree, trace = stage.run_seed(run_, cfg, site, seed, seed_id="par%d" % k, max_passes=8)
+            got = {q["canon"] for q in trace["requests"]}
+            rp = {"domain": "stage", "cfg": cfg, "seed": seed, "site": site.pages}
+            ctx.case("parents" + json.dumps([seed, page, rel]), len(chain) >= 1)
+            ctx.count("pipeline-parents")
+            want = [(page, x) for x in rel + [plist]] + ([(pabs, x) for x in segs] if pabs in got else [])
+            for par, x in want:
+                u = urljoin(par, x)
+                if u not in got:
+                    near = sorted(y for y in got if y.rsplit("/", 1)[-1].split("?")[0] == u.rsplit("/", 1)[-1].split("?")[0])
+                    ctx.violation("reference %r found on %s (seed %s) resolves to %s against its parent; no request was built for it%s" % (
+                        x, par, seed, u, (" (one was built for %s)" % near[0]) if near else ""), dict(rp, url=u))
+                    break
+    finally:
+        h.send({"op": "close"}); h.close()
+    stage.compare(ctx, run_, "C09 parents in the pipeline")
+
+
 def run(ctx):
     t = ctx.thorough()
+    parents_in_the_pipeline(ctx, 300 if t else 25)
     norm_stream(ctx, 60000 if t else 2500)
     resolve_stream(ctx, 30000 if t else 1500)
     query_stream(ctx, 40000 if t else 1500)
@@ -305,7 +351,19 @@ def run(ctx):
 
 def replay(ctx, doc):
     rp = doc.get("replay", doc)
-    if "raw" in rp:
+    if rp.get("domain") == "stage":
+        from urllib.parse import urljoin
+        from . import stage
+        h = core.Interactive("stage")
+        run_ = stage.Run(ctx, h)
+        try:
+            site = stage.Site(); site.pages = rp["site"]
+            act, tree, trace = stage.run_seed(run_, rp["cfg"], site, rp["seed"], seed_id="replay", max_passes=8)
+            if rp.get("url") and rp["url"] not in {q["canon"] for q in trace["requests"]}:
+                ctx.violation("replay: no request was built for %s" % rp["url"], rp)
+        finally:
+            h.send({"op": "close"}); h.close()
+    elif "raw" in rp:
         rc, impl, err = core.run_impl("url", [json.dumps({"op": "norm", "raw": rp["raw"], "parent": rp.get("parent", "")})])
         d = parse_line(impl[0]) if impl[0].startswith("ok") else {}
         if d and (d["det"] != "1" or d["again"] != d["canon"]):
